@@ -178,6 +178,26 @@ def C17(tier, seed):
                            "for a successful two-hop: both legs succeed alone, intermediate amounts match, every account of the two banks is identical, trader pays leg one / receives leg two / nets zero"}
 
 
+def C10(tier, seed):
+    gen = [{"name": "layouts", "module": "PackagingModel", "cfg": "PackagingModel.cfg"}]
+    jobs = []
+    if tier == "quick":
+        for s_ in range(4):
+            jobs.append({"name": f"pack_{s_}", "args": ["pack", "--seed", str(seed * 100 + s_), "--layouts", "@layouts@", "--sample", "60"]})
+    else:
+        for s_ in range(8):
+            jobs.append({"name": f"pack_{s_}", "args": ["pack", "--seed", str(seed * 100 + s_), "--layouts", "@layouts@", "--sample", "100000"], "tlc_timeout": 7200})
+    p = {"active": ["C10"], "drivers": jobs, "models": [mc("MC_Whirlpool", tier), COV], "gen": gen, "exhaustive": tier != "quick",
+         "must_exercise": {"swap": 50, "swap_v2": 200},
+         "explanation": "TLC enumerates all placements of <= 4 initialized ticks over boundary slots of the three arrays a swap uses x direction x start state (on tick / inside / shifted); each world is "
+                        "built in three encodings (fixed / dynamic / only arrays holding a tick exist) and the same swaps run under every packaging (v1, v2, permuted, duplicated + supplemental, extra "
+                        "supplemental, reversed, truncated, foreign array). TLC requires: crossed ticks = exactly the initialized ticks between start and end tick (over ALL ticks of the pool), once each, "
+                        "in order, with the tick's net liquidity; no step jumps an initialized tick; identical outcome for all packagings supplying the window; truncated packagings fail or agree; "
+                        "foreign arrays rejected. The path predicate is also evaluated on the swaps of random histories."}
+    p["drivers"] += hist_jobs("hist_spl_", seed, 2 if tier == "quick" else 8, 4 if tier == "quick" else 40, 150, "spl")
+    return p
+
+
 def C16(tier, seed):
     drivers = hist_jobs("hist_t22fee_", seed, 5 if tier == "quick" else 16, 4 if tier == "quick" else 40, 200 if tier == "quick" else 300, "t22fee")
     drivers += fn_jobs("tfee", tier, seed, 400, 8000, shards_q=2, shards_t=8)
@@ -238,4 +258,4 @@ def C08(tier, seed):
     return p
 
 
-PLANS = {"C01": C01, "C02": C02, "C03": C03, "C04": C04, "C14": C14, "C15": C15, "C16": C16, "C17": C17, "C05": C05, "C06": C06, "C07": C07, "C11": C11, "C12": C12, "C13": C13, "C08": C08, "C09": C09}
+PLANS = {"C01": C01, "C02": C02, "C03": C03, "C04": C04, "C10": C10, "C14": C14, "C15": C15, "C16": C16, "C17": C17, "C05": C05, "C06": C06, "C07": C07, "C11": C11, "C12": C12, "C13": C13, "C08": C08, "C09": C09}
